@@ -415,30 +415,35 @@ Example C12_copied_response_unaltered_nonvacuous :
    cm x = Some 200 /\ view x = (false, b) /\ o_etag (observe x) = true).
 Proof. vm_compute. repeat split; try reflexivity. discriminate. Qed.
 
-(* Copying an EMPTY source writes nothing.  Where templates is not configured it does not touch
-   the response at all ... *)
-Theorem C12_empty_copy_transparent_partial :
-  forall et c path ae pre post ret err, c_templates c = false ->
+(* Copying an EMPTY source writes nothing and does not touch the response, in EVERY configuration,
+   around every script and for every return value: also templates' ResponseBuffer, the one wrapper
+   with a ReadFrom of its own, leaves the implicit header to the first byte copied (repair of
+   F-C12-6), so the status the handler sets afterwards - or the error status it returns - is the
+   one the client receives. *)
+Theorem C12_empty_copy_transparent :
+  forall et c path ae pre post ret err,
   serve et c path ae (pre ++ ORf [] :: post) ret err = serve et c path ae (pre ++ post) ret err.
-Proof. exact serve_empty_copy_no_templates. Qed.
-Print Assumptions C12_empty_copy_transparent_partial.
+Proof. exact serve_empty_copy. Qed.
+Print Assumptions C12_empty_copy_transparent.
 
-(* ... but templates' ResponseBuffer.ReadFrom commits the implicit 200 before it looks at the
-   source (finding F-C12-6): the status the handler sets afterwards is lost, and a handler
-   that returns an error status gets a superfluous WriteHeader. *)
-Theorem C12_empty_copy_transparent_refuted :
-  (exists et c path ae post ret err,
-     cm (serve et c path ae (ORf [] :: post) ret err) = Some 200 /\ cm (serve et c path ae post ret err) = Some 404) /\
-  (exists et c path ae ret err,
-     handler_contract [] ret = true /\ sup (serve et c path ae [ORf []] ret err) = 1%nat /\ sup (serve et c path ae [] ret err) = 0%nat).
-Proof.
-  split.
-  - exists (fun _ => []), (c12_with_templates c12_cfg0), (bs "/x.txt"), false, [OWh 404; OWr (bs "custom")], 0, false.
-    vm_compute. split; reflexivity.
-  - exists (fun _ => []), (c12_with_templates c12_cfg0), (bs "/x.txt"), false, 404, false.
-    vm_compute. repeat split; reflexivity.
-Qed.
-Print Assumptions C12_empty_copy_transparent_refuted.
+(* ... and it is invisible to the handler contract: C12_single_commit_all covers the scripts that
+   copy an empty source anywhere, before the header included *)
+Theorem C12_empty_copy_in_contract :
+  forall pre post ret,
+  handler_contract (pre ++ ORf [] :: post) ret = handler_contract (pre ++ post) ret /\
+  panics_after_write (pre ++ ORf [] :: post) = panics_after_write (pre ++ post).
+Proof. exact contract_empty_copy. Qed.
+Print Assumptions C12_empty_copy_in_contract.
+
+(* the two witnesses of the former refutation (corpus/C12/f6_templates_empty_copy.json), behind templates *)
+Example C12_empty_copy_transparent_witnesses :
+  let c := c12_with_templates c12_cfg0 in
+  cm (serve (fun _ => []) c (bs "/x.txt") false [ORf []; OWh 404; OWr (bs "custom")] 0 false) = Some 404 /\
+  handler_contract [ORf []; OWh 404; OWr (bs "custom")] 0 = true /\
+  handler_contract [ORf []] 404 = true /\
+  cm (serve (fun _ => []) c (bs "/x.txt") false [ORf []] 404 false) = Some 404 /\
+  sup (serve (fun _ => []) c (bs "/x.txt") false [ORf []] 404 false) = 0%nat.
+Proof. vm_compute. repeat split; reflexivity. Qed.
 
 (* ===================== a template that fails ===================== *)
 
